@@ -132,7 +132,17 @@ check('C01', 'exploration',
       'TLA+ token-level encoder (TLC) validating real request/response documents + third-party client (zeep)',
       'DESIGN.md 4/C01')
 
-PENDING = ['C02', 'C03', 'C04', 'C06', 'C07', 'C16', 'C17']
+check('C06', 'exploration',
+      'For every application generated from SpyneSignatures (two namespaces, inheritance across namespaces, attributes, wrapped '
+      'and unwrapped arrays, bare styles, SOAP headers) the schemas served in ?wsdl are extracted and compiled by lxml; every '
+      'response Spyne emits for a conformant value, every request the loopback Spyne client writes and every request the '
+      'spec-conformant encoder writes is validated against them. For every SpyneValidate case (facet x probe, Valid computed by '
+      'TLC) x position x {XmlDocument, Soap11, Soap12} the verdict of validator=lxml is compared by TLC with Valid and with the '
+      'soft verdict (SchemaAgrees).',
+      'TLA+ facet/verdict table (TLC) + XML Schema processor as second judge of every emitted document',
+      'DESIGN.md 4/C06')
+
+PENDING = ['C02', 'C03', 'C04', 'C07', 'C16', 'C17']
 
 def main():
     import importlib
